@@ -275,6 +275,13 @@ fn emit_exact(out: &mut Out, op: &str, k: usize, stranded: bool, thr: usize, rea
     }
 }
 
+fn emit_unitig(out: &mut Out, k: usize, stranded: bool, mode: u8, reads: &[LRead], g: &Option<Nodes>) {
+    match g {
+        Some(g) => out.case("chk.unitig", l(vec![nu(k), b(stranded), n(mode), reads_v(reads), nodes_v(g)]), n(1u8)),
+        None => out.case("chk.unitig", l(vec![]), V::Bot),
+    }
+}
+
 fn c04_pair<T: KS + Send + Sync, P: KS>(out: &mut Out, seed: u64, tier: &Tier, counter: &mut usize, nsets: usize, st: &mut Stats) {
     let k = T::k();
     let p = P::k();
@@ -315,6 +322,8 @@ fn c04_pair<T: KS + Send + Sync, P: KS>(out: &mut Out, seed: u64, tier: &Tier, c
         emit_same(out, "chk.c04", k, stranded, mode, &gs, &gd);
         emit_exact(out, "chk.graph_exact", k, stranded, thr, &reads, &gs);
         emit_exact(out, "chk.graph_exact", k, stranded, thr, &reads, &gd);
+        emit_unitig(out, k, stranded, mode, &reads, &gs);
+        emit_unitig(out, k, stranded, mode, &reads, &gd);
         out.nt = false;
     }
 }
@@ -398,6 +407,7 @@ fn c06_pair<T: KS + Send + Sync, P: KS>(out: &mut Out, seed: u64, tier: &Tier, c
         };
         out.nt = delicate;
         emit_exact(out, "chk.graph_exact", k, false, thr, &reads, &g0);
+        emit_unitig(out, k, false, mode, &reads, &g0);
         for (mi, mask) in masks.iter().enumerate() {
             let fr = flip(&reads, *mask);
             st.cases += 1;
@@ -415,14 +425,24 @@ fn c06_pair<T: KS + Send + Sync, P: KS>(out: &mut Out, seed: u64, tier: &Tier, c
             if mi == 0 {
                 emit_sharded::<T, P>(out, &fr, false, &perm, thr, mode, variant, &s);
             }
-            emit_same(out, "chk.c06.graph", k, false, mode, &g0, &s.map(|s| s.fin));
+            let sf = s.map(|s| s.fin);
+            if mi == 0 {
+                emit_exact(out, "chk.graph_exact", k, false, thr, &fr, &sf);
+                emit_unitig(out, k, false, mode, &fr, &sf);
+            }
+            emit_same(out, "chk.c06.graph", k, false, mode, &g0, &sf);
             // re-compressed: one node per k-mer (even masks) / compress_graph of the direct graph (odd masks)
             let route = 1 + (mask & 1) as u8;
             let r = run_direct::<T>(&fr, false, thr, mode, route);
             if mi == 0 {
                 emit_direct::<T>(out, &fr, false, thr, mode, route, &r);
             }
-            emit_same(out, "chk.c06.graph", k, false, mode, &g0, &r.map(|d| d.1));
+            let rf = r.map(|d| d.1);
+            if mi == 0 {
+                emit_exact(out, "chk.graph_exact", k, false, thr, &fr, &rf);
+                emit_unitig(out, k, false, mode, &fr, &rf);
+            }
+            emit_same(out, "chk.c06.graph", k, false, mode, &g0, &rf);
         }
         // ---- stranded: exactly the forward k-mers and links, in every pipeline variant; a flipped read set is a
         // different input (no invariance is claimed), checked against ITS forward strand
@@ -433,7 +453,9 @@ fn c06_pair<T: KS + Send + Sync, P: KS>(out: &mut Out, seed: u64, tier: &Tier, c
             emit_exact(out, "chk.c06.stranded", k, true, thr, rs, &d.map(|d| d.1));
             let s = run_sharded::<T, P>(rs, true, perm.as_deref(), thr, mode, variant);
             emit_sharded::<T, P>(out, rs, true, &perm, thr, mode, variant, &s);
-            emit_exact(out, "chk.c06.stranded", k, true, thr, rs, &s.map(|s| s.fin));
+            let sf = s.map(|s| s.fin);
+            emit_exact(out, "chk.c06.stranded", k, true, thr, rs, &sf);
+            emit_unitig(out, k, true, mode, rs, &sf);
             let r = run_direct::<T>(rs, true, thr, mode, 1);
             emit_direct::<T>(out, rs, true, thr, mode, 1, &r);
             emit_exact(out, "chk.c06.stranded", k, true, thr, rs, &r.map(|d| d.1));
